@@ -183,7 +183,7 @@ def jobs(tier):
     js = []
     o = {"witnesses": 1}
     oc = {"index_concretize_limit": 8, "witnesses": 1}
-    for est, fpr in [(1, .5), (3, .28), (3, .2), (5, .3), (5, .22)] + ([(10, .05)] if tier == "thorough" else []):
+    for est, fpr in [(1, .5), (3, .28), (3, .25), (3, .2), (4, .25), (5, .3), (5, .22)] + ([(10, .05)] if tier == "thorough" else []):
         js.append({"h": "c06.bloom", "cfg": {"est": est, "fpr": fpr}, "opts": dict(o, cost=est)})
     for est, fpr in [(1, .5), (1, .3), (2, .3)]:
         js.append({"h": "c06.cbf", "cfg": {"est": est, "fpr": fpr}, "opts": dict(o, cost=est * 5)})
